@@ -427,6 +427,12 @@ func coqExpr(n *node) string {
 		return "(ELit " + coqLit(n.Val, reprOfKind(n.Val.K)) + ")"
 	case n.Op == "()":
 		return coqExpr(n.X)
+	case n.Op == "real":
+		return fmt.Sprintf("(ECall1 BReal %s)", coqExpr(n.X))
+	case n.Op == "imag":
+		return fmt.Sprintf("(ECall1 BImag %s)", coqExpr(n.X))
+	case n.Op == "complex":
+		return fmt.Sprintf("(ECplx %s %s)", coqExpr(n.X), coqExpr(n.Y))
 	case n.Y == nil:
 		return fmt.Sprintf("(EUn %s %s)", unCoq[n.Op[1:]], coqExpr(n.X))
 	}
@@ -499,7 +505,16 @@ var enumerated = []string{
 	"(1+2i)*(3-4i)", "(1+2i)/(3-4i)", "1i == 1i", "1+0i == 1", "'a' == 97", "'a' < 98.5", `"a"+"b"`, `"a" < "b"`, `"a"+"b" == "ab"`, "true && false", "true || false", "!true", "!(1 < 2)",
 	"true == false", "true != !false", "1 == 1.0", "1.0 == 1+0i", "1 < 2 && 2 < 3", "5/2*2 == 4", "5.0/2*2 == 5", "1<<10 - 1", "1<<10-1", "3 &^ 1 << 1",
 	"1<<512", "1<<511 + (1<<511 - 1)", "-(1<<511)", "1e308*10", "1.7976931348623157e308", "5e-324/2", "1e40/1e-40",
+	// builtins on untyped constant operands: real/imag give an untyped FLOAT constant whatever the representation of the
+	// component (finding C04-7: real(3+2i)/2 was the integer division 3/2), complex gives an untyped complex constant
+	"real(3+2i)/2", "real(3+2i)", "imag(3+2i)/4", "real(1)", "real(1)/2", "imag(1)", "imag('a')", "real('a')", "real('a')/2", "real(2.0)/4", "real(2.5)", "imag(2.5)",
+	"real(1.5+2.5i)", "imag(1.5+2.5i)/2", "-real(3+2i)", "real(3+2i)/2 == 1.5", "real(3+2i) == 3", "real(1<<100 + 1i) / 3", "real(1i*1i)", "imag(1i*1i)", "real(-0.0)", "imag(1e-400i)",
+	"complex(1, 2)/2", "complex(1, 2)", "complex(1, 0)", "complex(1.5, 'a')", "complex('a', 'b')", "complex(1+0i, 2)", "complex(1, 2+0i)", "complex(1, 2) == 1+2i",
+	"real(complex(7,3))/2", "imag(complex(7,3))/2", "complex(real(1+2i), imag(1+2i)) == 1+2i", "complex(imag(5i)/2, real(5)/2)",
+	"real(7+3i) << 1", "1 << real(3+0i)", "1 << imag(3i)", "imag(4i) >> 1", "real(1e3+1i) << imag(2i)",
 	// invalid
+	"real(7+3i) % 2", "^real(3+2i)", "real(3+2i) & 1", "imag(2i) | 1", `real("a")`, "real(true)", `imag("a")`, "imag(false)", "complex(1, 2i)", "complex(1i, 2)", `complex("a", 1)`, "complex(true, 1)",
+	`complex(1, "a")`, "complex(1)", "real()", "real(1, 2)", "complex(1, 2, 3)", "1 << real(1.5+0i)", "real(2.5) << 1", "complex(1, 1e-400i)", "complex(1, 2) < 3", "real(1)/imag(1)",
 	"1/0", "1%0", "1.0/0", "1/0.0", "1i/0", "1.5%2", "1.5&1", "1<<-1", "1<<1.5", "1.5<<1", `"a"+1`, `1+"a"`, `"a"*2`, `"a"-"b"`, "true+1", "true<false", "1i<2i", `"a"==1`, "1==true",
 	"!1", `-"a"`, "^1.5", "-true", "true&false", "1&&2", "1<<(1<<64)", "1 << 1e30", "1<<1074", "1<<1075", "1>>1075", "1 << (1<<40)",
 }
@@ -508,7 +523,9 @@ func main() {
 	a := vh.ParseArgs()
 	rng := vh.NewRng(a.Seed)
 	rep := vh.NewReport(a, "constant expression trees: literal VALUES chosen first (math/big) then formatted in a random form (decimal/0b/0o/legacy-octal/0x with '_' separators; decimal and hex floats incl. .5, 5., exponents up to 1e+-1200; imaginary; rune; string; bool); "+
-		"kind-directed random trees of depth<=4 over + - * / % & | ^ &^ << >> == != < <= > >= && || and unary + - ^ ! (15% deliberately ill-kinded) plus an enumerated list of unparenthesised chains; "+
+		"kind-directed random trees of depth<=4 over + - * / % & | ^ &^ << >> == != < <= > >= && || and unary + - ^ ! and the builtin calls real(x) imag(x) complex(x, y) on untyped constant operands of every numeric kind "+
+		"(3 of 23 inner numeric nodes wherever a float/complex result is admissible: integer/rune/float/complex arguments, n+mi with integer parts, complex arguments written x+0i; also as shift operands and shift counts) "+
+		"(17% deliberately ill-kinded, including real/imag/complex of strings, booleans, complex(1, 2i), and % & | ^ on real()/imag() results) plus an enumerated list of unparenthesised chains and builtin calls; "+
 		"each tree evaluated (1) by gomacro with OptKeepUntyped, (2) by the exact math/big reference evaluator, (3) by go/types types.Eval; every accepted value is then used in typed contexts "+
 		"`var x T = e` and `T(e)` for T over the 17 basic kinds (3 targets per value, biased to the value's neighbourhood) judged by go/types (accept/reject) and one batched compiled-Go program (values, float bit patterns), "+
 		"and in `var b *big.Int|*big.Rat|*big.Float = e` judged against math/big built from the exact value; corpus/C04/*.json replayed first. "+
